@@ -11,7 +11,9 @@
 """
 from __future__ import annotations
 
+import contextlib
 import copy
+import io
 import json
 import os
 import shutil
@@ -52,7 +54,8 @@ def cli_stages(argv, input_name="dummy.json"):
     try:
         saved_argv = sys.argv
         sys.argv = ["acelyzer"]
-        ace = Acelyzer(["-i", input_name, "-o", os.path.join(tmp, "out.json"), *argv])
+        with contextlib.redirect_stdout(io.StringIO()):
+            ace = Acelyzer(["-i", input_name, "-o", os.path.join(tmp, "out.json"), "-D", "0", *argv])
         aiulog.loglevel = -1
         sys.argv = saved_argv
         rec = []
@@ -128,9 +131,10 @@ def e2e(argv_tail, files: dict[str, list[dict]], want_files=(), keep_dir=False):
         saved_argv = sys.argv
         sys.argv = ["acelyzer"]
         try:
-            ace = Acelyzer(["-i", ",".join(paths), "-o", out, "-D", "0", *argv_tail])
-            aiulog.loglevel = -1
-            res["rc"] = ace.run()
+            with contextlib.redirect_stdout(io.StringIO()):
+                ace = Acelyzer(["-i", ",".join(paths), "-o", out, "-D", "0", *argv_tail])
+                aiulog.loglevel = -1
+                res["rc"] = ace.run()
         except SystemExit as e:
             res["rc"] = e.code
             res["error"] = "SystemExit"
